@@ -131,6 +131,9 @@ class PathEnv:
         reuse one temporary name `a` for several fields)."""
         out = set()
         for st in stmts:
+            if isinstance(st, ast.If) and isinstance(st.test, ast.Constant):      # an inlined worker called with a literal mode
+                out |= self.pushes(st.body if st.test.value else st.orelse, stackname)
+                continue
             if isinstance(st, ast.If):
                 saved = dict(self.env)
                 for x in ast.walk(st.test):
@@ -195,7 +198,7 @@ def run(ctx):
         row = have.get(cname)
         ok = isinstance(row, tuple) and len(row) == 2 and isinstance(row[0], FuncTok) and row[0].name == helper
         if ok:
-            fis = ctx.repo.mod('fst_traverse').func(row[0].qualname)
+            fis = ctx.repo.find_funcs('fst_traverse', row[0].qualname)
             def yields_values(fn_node, depth=0):
                 # a generator function, or a plain function whose every return hands back the result of calling one (delegation)
                 if any(isinstance(n, (ast.Yield, ast.YieldFrom)) for n in walk_no_nested(fn_node)):
@@ -226,9 +229,11 @@ def run(ctx):
                        'language-reference set of parts that belong to the enclosing (resp. own) scope', 10)
     for q, oracle in ORACLE.items():
         for fi in ctx.repo.funcs('fst_traverse', q):
-            pe = PathEnv(fi.node, 'ast')
+            from ..inline import inlined
+            fnode, _ = inlined(ctx.repo, fi)          # what the helper does, workers it was split into included
+            pe = PathEnv(fnode, 'ast')
             pe.solve()
-            ifs = find_back_ifs(fi.node)
+            ifs = find_back_ifs(fnode)
             if not ifs:
                 raise AnalysisError(f'{q}: no direction arms found')
             for n in ifs:
@@ -276,12 +281,18 @@ def run(ctx):
             par_ = wpar0.get(v)
             if isinstance(par_, ast.Assign) and isinstance(par_.targets[0], ast.Name):
                 first = par_.targets[0].id
-            elif isinstance(par_, ast.Call) and isinstance(par_.func, ast.Attribute) and norm(par_.func.value) == 'self' and v in par_.args:
-                helper = ctx.repo.funcs('fst_traverse', '_ScopeContext.' + par_.func.attr)
-                if helper:
-                    hp = [x.arg for x in helper[0].node.args.args if x.arg != 'self']
-                    first = hp[par_.args.index(v)]
-                    wc = helper[0]
+            else:
+                if isinstance(par_, ast.keyword):
+                    kwname, par_ = par_.arg, wpar0.get(par_)
+                else:
+                    kwname = None
+                if isinstance(par_, ast.Call) and isinstance(par_.func, ast.Attribute) and norm(par_.func.value) == 'self' and \
+                        (kwname is not None or v in par_.args):
+                    helper = ctx.repo.mod('fst_traverse').func('_ScopeContext.' + par_.func.attr)
+                    if helper:
+                        hp = [x.arg for x in helper[0].node.args.args if x.arg != 'self']
+                        first = kwname if kwname is not None else hp[par_.args.index(v)]
+                        wc = helper[0]
     wpar = parent_map(wc.node)
     ctx.check('R16.1c', first is not None, wc.module, wc.qualname, 'first iterable selection',
               'walk_Comp does not select `<comprehension>.generators[0].iter` (the only part of a comprehension evaluated in the enclosing scope)', wc.lineno)
